@@ -183,6 +183,8 @@ struct C10 {
     header_values: u64,
     /// path of the Lean driver (for the child process that runs deeply nested texts)
     driver: String,
+    /// seconds spent per case kind (evidence: where the time goes)
+    seconds: BTreeMap<String, f64>,
 }
 
 
@@ -885,9 +887,9 @@ fn mutate_pl(r: &mut Rng, ntok: usize) -> String {
             8 | 9 => format!("R{i}:{}", hex(r.pick(KEYWORDS).as_bytes())),
             10 => format!("I{i}:{}", hex(format!("({} {})", r.pick(&["LABEL", "NEXTLARGER", "KRN", "BOUNDARYCHAR", "CHARACTER", "SKIP", "TOP", "REP"]), gen_number(r)).as_bytes())),
             11 => format!("C{i}"),
-            12 => format!("U{i}:{}", r.pick(&[2usize, 3, 50, 300])),
+            12 => format!("U{i}:{}", r.pick(&[2usize, 3, 20, 100])),
             13 => format!("R{i}:{}", hex(r.pick(&["C", "D", "O", "H", "R", "F", "X"]).as_bytes())),
-            14 => format!("I{i}:{}", hex("(".repeat(*r.pick(&[10usize, 200, 3000])).as_bytes())),
+            14 => format!("I{i}:{}", hex("(".repeat(*r.pick(&[10usize, 200, 2000])).as_bytes())),
             _ => format!("R{i}:{}", hex(gen_number(r).as_bytes())),
         };
         muts.push(m);
@@ -901,7 +903,7 @@ impl Property for C10 {
     }
     fn rule(&self) -> String {
         "hs/h: every value of each of the twelve header words (all 2^16 in thorough; stride 64 plus 48 consecutive values at 0, 232, 32744 and 65488 in quick; one hs case = one sweep of up to 256 values, the number of values is in extra.header_word_values_evaluated_in_hs_sweeps) against five base files \
-         (16-byte, 24-byte, minimal consistent 48-byte, a 72-byte consistent file with junk, a 131 068-byte file with lf=32767: stride 8 there except lf and nw), hc: every word of two consistent tables swept with lf and the file length following (0..320 dense in quick, 0..2048 in thorough, sparse to 2^16); then random consistent size tables with random bodies and random 1-3-word damage; \
+         (16-byte, 24-byte, minimal consistent 48-byte, a 72-byte consistent file with junk, a 131 068-byte file with lf=32767: stride 8 there except lf and nw), hc: every word of two consistent tables swept with lf and the file length following (0..192 dense in quick, 0..1024 in thorough, sparse to 2^16); then random consistent size tables with random bodies and random 1-3-word damage; \
          t: every corpus .tfm under crates/tfm*/ — all truncation lengths that are multiples of 4 around every sub-file boundary plus random ones, random single-byte and header-word mutations; \
          p: every corpus .plst/.pl — random token mutations (paren deletion/insertion, out-of-range and huge numbers, keyword swaps, undeclared characters in labels, cuts, deep nesting, repeats); \
          pt: random small property lists from the grammar with deliberate violations. Every tftopl output is fed to pltotf and every pltotf output to the reader and tftopl. \
@@ -998,7 +1000,7 @@ impl Property for C10 {
         for (fill, words) in [(0u64, [12i64, 2, 1, 0, 1, 1, 1, 1, 0, 0, 0, 0]), (11, [26, 3, 65, 70, 3, 2, 2, 2, 2, 1, 1, 1])] {
             let hexbase = hex(&header_from(&words));
             for w in 1..12 {
-                let top = if th { 2048 } else { 320 };
+                let top = if th { 1024 } else { 192 };
                 let mut start = 0;
                 while start < top {
                     v.push(format!("hc 24 {fill} {hexbase} {w} {start} 64 1"));
@@ -1013,7 +1015,7 @@ impl Property for C10 {
         }
         // random consistent tables (+ damage)
         let mut r = rng.fork();
-        let n_cons = if th { 60_000 } else { 4_000 };
+        let n_cons = if th { 30_000 } else { 4_000 };
         for _ in 0..n_cons {
             let total: i64 = match r.below(10) {
                 0 => 32767,
@@ -1107,8 +1109,8 @@ impl Property for C10 {
             }
             let big = *len > 20_000;
             let n_mut = match (th, big) {
-                (true, false) => 1000,
-                (true, true) => 150,
+                (true, false) => 500,
+                (true, true) => 60,
                 (false, false) => 60,
                 (false, true) => 3,
             };
@@ -1157,9 +1159,9 @@ impl Property for C10 {
             let src = String::from_utf8_lossy(&self.load(rel)).into_owned();
             let ntok = tokens(&src).len();
             let n_mut = match (th, *len) {
-                (true, l) if l > 60_000 => 40,
-                (true, l) if l > 10_000 => 300,
-                (true, _) => 800,
+                (true, l) if l > 60_000 => 15,
+                (true, l) if l > 10_000 => 120,
+                (true, _) => 400,
                 (false, l) if l > 10_000 => 6,
                 (false, _) => 30,
             };
@@ -1171,7 +1173,171 @@ impl Property for C10 {
     }
 
     fn run_case(&mut self, case: &str, drv: &mut Driver) -> CaseOutcome {
+        let t0 = std::time::Instant::now();
+        let out = self.run_case_inner(case, drv);
+        let kind = case.split(' ').next().unwrap_or("?").to_string();
+        *self.seconds.entry(kind).or_insert(0.0) += t0.elapsed().as_secs_f64();
+        out
+    }
+    fn extra_evidence(&self) -> Option<String> {
+        let secs: Vec<String> = self.seconds.iter().map(|(k, v)| format!("\"{k}\": {v:.1}")).collect();
+        Some(format!("\"header_word_values_evaluated_in_hs_sweeps\": {}, \"seconds_by_case_kind\": {{{}}}", self.header_values, secs.join(", ")))
+    }
+
+    fn shrink(&self, case: &str) -> Vec<String> {
+        let (cmd, rest) = case.split_once(' ').unwrap_or((case, ""));
+        let mut c = vec![];
+        match cmd {
+            "t" | "p" => {
+                let w: Vec<&str> = rest.split(' ').collect();
+                if w.len() > 1 {
+                    for i in 1..w.len() {
+                        let mut o = w.clone();
+                        o.remove(i);
+                        c.push(format!("{cmd} {}", o.join(" ")));
+                    }
+                }
+                if cmd == "p" {
+                    // turn into literal text (shrinks further as pt) when the list is small
+                    let mut me = C10 { repo: self.repo.clone(), files: Default::default(), header_values: 0, driver: self.driver.clone(), seconds: Default::default() };
+                    let text = me.text_of_case(cmd, rest);
+                    if text.len() < 30_000 {
+                        let e = esc(&text);
+                        if e.len() < case.len() || w.len() <= 2 {
+                            c.push(format!("pt {e}"));
+                        }
+                    }
+                }
+            }
+            "pt" => {
+                let text = unesc(rest);
+                let toks = tokens(&text);
+                // balanced groups: drop halves of the top-level lists, then single lists
+                let mut groups: Vec<(usize, usize)> = vec![];
+                let mut depth = 0i64;
+                let mut start = 0;
+                for (i, t) in toks.iter().enumerate() {
+                    if t == "(" {
+                        if depth == 0 {
+                            start = i;
+                        }
+                        depth += 1;
+                    } else if t == ")" {
+                        depth -= 1;
+                        if depth == 0 {
+                            groups.push((start, i + 1));
+                        }
+                        if depth < 0 {
+                            depth = 0;
+                        }
+                    }
+                }
+                let without = |a: usize, b: usize| -> String {
+                    let mut s = String::new();
+                    for (i, t) in toks.iter().enumerate() {
+                        if i < a || i >= b {
+                            s.push_str(t);
+                        }
+                    }
+                    format!("pt {}", esc(&s))
+                };
+                if groups.len() > 1 {
+                    let mid = groups[groups.len() / 2].0;
+                    c.push(without(mid, toks.len()));
+                    c.push(without(0, mid));
+                }
+                for (a, b) in &groups {
+                    c.push(without(*a, *b));
+                }
+                // inner lists of each top-level group
+                let mut stack = vec![];
+                let mut inner = vec![];
+                for (i, t) in toks.iter().enumerate() {
+                    if t == "(" {
+                        stack.push(i);
+                    } else if t == ")" {
+                        if let Some(a) = stack.pop() {
+                            if !stack.is_empty() {
+                                inner.push((a, i + 1));
+                            }
+                        }
+                    }
+                }
+                for (a, b) in inner.iter().take(150) {
+                    c.push(without(*a, *b));
+                }
+                // blanks
+                if toks.len() < 200 {
+                    for i in 0..toks.len() {
+                        c.push(without(i, i + 1));
+                    }
+                }
+            }
+            "pn" => {
+                let (n, prefix) = rest.split_once(' ').unwrap_or((rest, ""));
+                let n: usize = n.parse().unwrap_or(0);
+                if !prefix.is_empty() {
+                    c.push(format!("pn {n} "));
+                }
+                // no halving: a text that does *not* overflow the stack takes time quadratic in
+                // the number of unbalanced parentheses (every warning's context is located by
+                // a scan from the start of the source), so passing candidates are expensive
+                let _ = n;
+            }
+            "hc" => {
+                let w: Vec<&str> = rest.split(' ').collect();
+                let (start, count, stride): (usize, usize, usize) = (w[4].parse().unwrap(), w[5].parse().unwrap(), w[6].parse().unwrap());
+                if count > 1 {
+                    for k in 0..count {
+                        let x = start + k * stride;
+                        if x < 65536 {
+                            c.push(format!("hc {} {} {} {} {x} 1 1", w[0], w[1], w[2], w[3]));
+                        }
+                    }
+                } else if w[1] != "0" {
+                    c.push(format!("hc {} 0 {} {} {} 1 1", w[0], w[2], w[3], w[4]));
+                }
+            }
+            "hs" => {
+                let w: Vec<&str> = rest.split(' ').collect();
+                let (word, start, count, stride): (usize, usize, usize, usize) = (w[3].parse().unwrap(), w[4].parse().unwrap(), w[5].parse().unwrap(), w[6].parse().unwrap());
+                let base = unhex(w[2]);
+                for k in 0..count {
+                    let x = start + k * stride;
+                    if x < 65536 {
+                        let mut b = base.clone();
+                        b[2 * word] = (x >> 8) as u8;
+                        b[2 * word + 1] = x as u8;
+                        c.push(format!("h {} {} {}", w[0], w[1], hex(&b)));
+                    }
+                }
+            }
+            "h" => {
+                let w: Vec<&str> = rest.split(' ').collect();
+                if w.len() == 3 {
+                    if w[1] != "0" {
+                        c.push(format!("h {} 0 {}", w[0], w[2]));
+                    }
+                    let b = unhex(w[2]);
+                    for i in 0..b.len() {
+                        if b[i] != 0 {
+                            let mut o = b.clone();
+                            o[i] = 0;
+                            c.push(format!("h {} {} {}", w[0], w[1], hex_or_dash(&o)));
+                        }
+                    }
+                }
+            }
+            _ => {}
+        }
+        c
+    }
+}
+
+impl C10 {
+    fn run_case_inner(&mut self, case: &str, drv: &mut Driver) -> CaseOutcome {
         let mut out = CaseOutcome::default();
+
         // debugging aid: C10_TRACE=<file> records the case being run (to find a case that
         // kills the process, e.g. by a stack overflow, which `caught` cannot intercept)
         if let Ok(path) = std::env::var("C10_TRACE") {
@@ -1268,159 +1434,6 @@ impl Property for C10 {
         out
     }
 
-    fn extra_evidence(&self) -> Option<String> {
-        Some(format!("\"header_word_values_evaluated_in_hs_sweeps\": {}", self.header_values))
-    }
-
-    fn shrink(&self, case: &str) -> Vec<String> {
-        let (cmd, rest) = case.split_once(' ').unwrap_or((case, ""));
-        let mut c = vec![];
-        match cmd {
-            "t" | "p" => {
-                let w: Vec<&str> = rest.split(' ').collect();
-                if w.len() > 1 {
-                    for i in 1..w.len() {
-                        let mut o = w.clone();
-                        o.remove(i);
-                        c.push(format!("{cmd} {}", o.join(" ")));
-                    }
-                }
-                if cmd == "p" {
-                    // turn into literal text (shrinks further as pt) when the list is small
-                    let mut me = C10 { repo: self.repo.clone(), files: Default::default(), header_values: 0, driver: self.driver.clone() };
-                    let text = me.text_of_case(cmd, rest);
-                    if text.len() < 30_000 {
-                        let e = esc(&text);
-                        if e.len() < case.len() || w.len() <= 2 {
-                            c.push(format!("pt {e}"));
-                        }
-                    }
-                }
-            }
-            "pt" => {
-                let text = unesc(rest);
-                let toks = tokens(&text);
-                // balanced groups: drop halves of the top-level lists, then single lists
-                let mut groups: Vec<(usize, usize)> = vec![];
-                let mut depth = 0i64;
-                let mut start = 0;
-                for (i, t) in toks.iter().enumerate() {
-                    if t == "(" {
-                        if depth == 0 {
-                            start = i;
-                        }
-                        depth += 1;
-                    } else if t == ")" {
-                        depth -= 1;
-                        if depth == 0 {
-                            groups.push((start, i + 1));
-                        }
-                        if depth < 0 {
-                            depth = 0;
-                        }
-                    }
-                }
-                let without = |a: usize, b: usize| -> String {
-                    let mut s = String::new();
-                    for (i, t) in toks.iter().enumerate() {
-                        if i < a || i >= b {
-                            s.push_str(t);
-                        }
-                    }
-                    format!("pt {}", esc(&s))
-                };
-                if groups.len() > 1 {
-                    let mid = groups[groups.len() / 2].0;
-                    c.push(without(mid, toks.len()));
-                    c.push(without(0, mid));
-                }
-                for (a, b) in &groups {
-                    c.push(without(*a, *b));
-                }
-                // inner lists of each top-level group
-                let mut stack = vec![];
-                let mut inner = vec![];
-                for (i, t) in toks.iter().enumerate() {
-                    if t == "(" {
-                        stack.push(i);
-                    } else if t == ")" {
-                        if let Some(a) = stack.pop() {
-                            if !stack.is_empty() {
-                                inner.push((a, i + 1));
-                            }
-                        }
-                    }
-                }
-                for (a, b) in inner.iter().take(150) {
-                    c.push(without(*a, *b));
-                }
-                // blanks
-                if toks.len() < 200 {
-                    for i in 0..toks.len() {
-                        c.push(without(i, i + 1));
-                    }
-                }
-            }
-            "pn" => {
-                let (n, prefix) = rest.split_once(' ').unwrap_or((rest, ""));
-                let n: usize = n.parse().unwrap_or(0);
-                if !prefix.is_empty() {
-                    c.push(format!("pn {n} "));
-                }
-                for m in [n / 2, n * 3 / 4, n * 9 / 10] {
-                    if m > 0 && m < n {
-                        c.push(format!("pn {m} {prefix}"));
-                    }
-                }
-            }
-            "hc" => {
-                let w: Vec<&str> = rest.split(' ').collect();
-                let (start, count, stride): (usize, usize, usize) = (w[4].parse().unwrap(), w[5].parse().unwrap(), w[6].parse().unwrap());
-                if count > 1 {
-                    for k in 0..count {
-                        let x = start + k * stride;
-                        if x < 65536 {
-                            c.push(format!("hc {} {} {} {} {x} 1 1", w[0], w[1], w[2], w[3]));
-                        }
-                    }
-                } else if w[1] != "0" {
-                    c.push(format!("hc {} 0 {} {} {} 1 1", w[0], w[2], w[3], w[4]));
-                }
-            }
-            "hs" => {
-                let w: Vec<&str> = rest.split(' ').collect();
-                let (word, start, count, stride): (usize, usize, usize, usize) = (w[3].parse().unwrap(), w[4].parse().unwrap(), w[5].parse().unwrap(), w[6].parse().unwrap());
-                let base = unhex(w[2]);
-                for k in 0..count {
-                    let x = start + k * stride;
-                    if x < 65536 {
-                        let mut b = base.clone();
-                        b[2 * word] = (x >> 8) as u8;
-                        b[2 * word + 1] = x as u8;
-                        c.push(format!("h {} {} {}", w[0], w[1], hex(&b)));
-                    }
-                }
-            }
-            "h" => {
-                let w: Vec<&str> = rest.split(' ').collect();
-                if w.len() == 3 {
-                    if w[1] != "0" {
-                        c.push(format!("h {} 0 {}", w[0], w[2]));
-                    }
-                    let b = unhex(w[2]);
-                    for i in 0..b.len() {
-                        if b[i] != 0 {
-                            let mut o = b.clone();
-                            o[i] = 0;
-                            c.push(format!("h {} {} {}", w[0], w[1], hex_or_dash(&o)));
-                        }
-                    }
-                }
-            }
-            _ => {}
-        }
-        c
-    }
 }
 
 fn main() {
@@ -1428,10 +1441,10 @@ fn main() {
     if std::env::var("C10_DEBUG").as_deref() == Ok("gen") {
         // generator self-test (default panic hook still installed: messages are printed)
         let ctx = Ctx { thorough: args.tier == "thorough", tier: args.tier.clone(), seed: args.seed, repo: args.repo.clone(), verif: args.verif.clone(), jobs: 1 };
-        let mut p = C10 { repo: args.repo.clone(), files: Default::default(), header_values: 0, driver: args.driver.clone() };
+        let mut p = C10 { repo: args.repo.clone(), files: Default::default(), header_values: 0, driver: args.driver.clone(), seconds: Default::default() };
         let v = p.generate(&ctx, &mut Rng::new(args.seed));
         println!("{} cases generated", v.len());
         return;
     }
-    run(C10 { repo: args.repo, files: Default::default(), header_values: 0, driver: args.driver });
+    run(C10 { repo: args.repo, files: Default::default(), header_values: 0, driver: args.driver, seconds: Default::default() });
 }
